@@ -148,7 +148,17 @@ func propRelations(t *rapid.T) {
 		[]byte(fmt.Sprintf("%s|%x|%x|%x|%x|%x|%v", rel, d, digest, content, d2, digest2, rd2.Chunks)), func() any {
 			return map[string]any{"relation": rel, "d": d.Text(16), "digest": stat.Hex(digest), "entropy": stat.Hex(content), "digest2": stat.Hex(digest2), "chunks": rd2.Chunks}
 		})
-	if wantSame {
+	if rel == "digest-tail" || rel == "digest-alias" {
+		// The digest enters the signature as e (its leftmost 256 bits mod n), so these two digests are the
+		// same message to ECDSA.  The property only says the nonce is a function of (key, digest, entropy):
+		// an implementation that feeds the raw digest bytes into the nonce derivation would answer with a
+		// different -- equally valid -- signature, so nothing is demanded here beyond validity (the
+		// deterministic mode, where the RFC fixes the answer, is compared with the reference elsewhere).
+		q := ref.BaseMul(d)
+		if !ref.ECDSAVerify(q, digest2, out2.r, out2.s) || !ref.ECDSAVerify(q, digest, out2.r, out2.s) {
+			t.Fatalf("relation %q: the second signature is not valid for both (equivalent) digests", rel)
+		}
+	} else if wantSame {
 		if !out1.eq(out2) {
 			t.Fatalf("relation %q must not change the signature: (%x,%x,%d) vs (%x,%x,%d)", rel, out1.r, out1.s, out1.v, out2.r, out2.s, out2.v)
 		}
